@@ -60,6 +60,9 @@ def all_results(repo, here):
             res[m.group(1)] = m.group(2)
         out = {'results': res, 'rc': p.returncode, 'tail': p.stdout[-3000:]}
         shutil.rmtree(crate, ignore_errors=True)
+        if os.path.abspath(repo) != '/repo':
+            # scratch copies have one-off paths: their build output would pile up (320 MB each)
+            shutil.rmtree(os.path.join(work, 'witness-target-' + rid), ignore_errors=True)
         if res:
             json.dump(out, open(cache, 'w'))
         # keep only a few cached results
